@@ -221,7 +221,11 @@ def register(props):
                 "definition: zero counts in each position, each unit alone, MaxInt64 written with all units, the same plus one base unit "
                 "= 2^63 by the SUM, single components at / beyond the edge, counts beyond int64 - against no bound, a max bound, the float "
                 "reading and an int enum; and the BLANK and PADDED texts of the definition - white space only (' ', tab, ' \\n ', CR LF, "
-                "VT, FF) and a bare count / zero / one unit / two units with white space in front, behind and on both sides - against "
+                "VT, FF; and Unicode white space, which strings.TrimSpace trims although the unit grammar's \\s is ASCII-only: NBSP, "
+                "NEL, U+3000, U+2003, U+2028, U+1680, U+202F, U+205F) and a bare count / zero / one unit / two units with white "
+                "space in front, behind and on both sides (ASCII, Unicode, and look-alikes that are NOT trimmed: a lone byte 0xA0 / "
+                "0x85 / 0xC2, U+200B, U+180E, U+FEFF), and with NBSP / NEL / U+3000 / U+2003 / U+2028 / VT / FF BETWEEN count and "
+                "unit (refused, except FF) - against "
                 "the int, bounded int, float and int-enum reading (0 admitted), as a leaf, a list item, a map value and a map KEY; the "
                 "same texts against the readings without units and bool), list/map sizes 0..4 against 7 bound configurations in typed and "
                 "untyped containers. c02nest: random nesting (depth 1-3) of those kinds with a valid input (raw in random representations "
